@@ -103,9 +103,10 @@ Fixpoint print_sexp (s : sexp) : bytes :=
 
 Inductive token := TOpen | TClose | TAtom (a : bytes).
 
-(* [cur] is the atom being read, reversed. *)
+(* [cur] is the atom being read, reversed.  ([rev_append], not [rev]: the
+   latter is quadratic and case lines can carry long byte strings.) *)
 Definition flush (cur : bytes) : list token :=
-  match cur with [] => [] | _ => [TAtom (rev cur)] end.
+  match cur with [] => [] | _ => [TAtom (rev_append cur [])] end.
 
 Fixpoint tokenize (l : bytes) (cur : bytes) : list token :=
   match l with
